@@ -17,6 +17,18 @@ CHECKS = {
    text="Seeded search over puts (including bursts with withheld acknowledgements), removes, responsible-range settings, clean-ups, payments, metric reads and restarts on a real store with capacity 2..8 or ~1638 pre-loaded records; admission, eviction, clean-up and quoting metrics are compared step by step with an independent model that recomputes XOR distances itself.",
    note="Trusted: as C01. Distances recomputed as sha256(a) xor sha256(b) by the harness. records_cache_size never 0.",
    technique="deterministic simulation: gate-scheduled background tasks + restarts, step-by-step capacity/eviction/metrics model"),
+ "C03": dict(sim="node", level="exploration", ref="5 C03",
+   text="Seeded search over sequences of client uploads (all kinds, paid and unpaid) to one real Node + SwarmDriver + store with 24 simulated neighbours, each paid upload carrying a payment condition vector (signatures, payee membership, payee closeness, expiry/future dating, per-quote on-chain result, RPC failure, own quote issued for another address) with mostly exactly one condition broken; after each upload is fully processed the store delta, the result and the payment-received notification are compared with the statement.",
+   note="Trusted: the simulator is the event loop/transport/ledger (real handlers called through guarded pass-throughs; verifyPayment answered by the in-process ledger shim); quote timestamps >= 10 min from the expiry boundary; shipped cache size.",
+   technique="deterministic simulation: real node handlers under a simulated transport/ledger, byzantine payment proofs, condition-vector oracle"),
+ "C04": dict(sim="node", level="exploration", ref="5 C04",
+   text="Seeded search over record presentations (honest key, key of another record, random key, unparseable and oversized values) through the three entry paths (validate_and_store_record, RecordStore::put on the real store, replication fetch from a simulated holder); after each the store is compared with a model that only holds records under independently derived keys (sha3-256 of content / owner / label+owner), a refused presentation must be an error and change nothing, and reads between presentation and acceptance must not return unvalidated bytes.",
+   note="Trusted: as C03. The size limit is checked on the RecordStore::put path only (where the code enforces it).",
+   technique="deterministic simulation: byzantine (key, content) presentations on three entry paths, independent key-derivation oracle"),
+ "C07": dict(sim="node", level="exploration", ref="5 C07",
+   text="Seeded search over paid uploads, unpaid updates and replicated copies of scratchpads (counters, signers, signature validity), transaction sets and registers (op sets, signers); configuration 'sequential' compares the store with a monotone/union model after every delivery, configuration 'concurrent' keeps 2-3 deliveries to one key in flight while the simulator interleaves the handling of their commands and disk writes in seeded order, and requires the order-independent merge at the end.",
+   note="Trusted: as C03. In the concurrent configuration equal-counter scratchpads may resolve either way.",
+   technique="deterministic simulation: gate-scheduled interleaving of overlapping updates to one key, monotone/union model oracle"),
 }
 
 NOT_APPLICABLE = {
